@@ -717,7 +717,7 @@ func TestVerifC20Raw(t *testing.T) {
 		t.Fatal(err)
 	}
 	defer out.Close()
-	tok := map[string][]byte{"e": {}, "a": []byte("a: the quick brown fox"), "b": bytes.Repeat([]byte("b0123456789"), 300)}
+	tok := map[string][]byte{"e": {}, "a": []byte("a: the quick brown fox"), "b": bytes.Repeat([]byte("b0123456789"), 60)}
 	evals, bad := 0, 0
 	for i, l := range lines {
 		var sq struct {
@@ -836,7 +836,7 @@ func TestVerifC20Seq(t *testing.T) {
 				trail = trail || k == "trail"
 			}
 			if enc == "br" && trail {
-				return "brotli-leftover-input-after-trailing-bytes"
+				return "brotli-reset-keeps-buffered-input"
 			}
 			return ""
 		}
